@@ -266,6 +266,21 @@ def contract_stream(rng, feats, mode=None, fail_bias=None, parse_errs=None, drop
     return [dict(meta=i + 1, ev=e) for i, e in enumerate(out)]
 
 
+def fail_on_skipped(rng, events, p=0.7):
+    """What writer::FailOnSkipped (with a per-scenario predicate) makes of a stream: in the chosen scenarios every
+    Skipped step becomes Failed(NotFound). Such an attempt is never retried by the runner, whatever retries it has left
+    (src/writer/fail_on_skipped.rs:88-113; summarize.rs / libtest.rs treat NotFound as final)."""
+    chosen = {}
+    out = []
+    for d in events:
+        e = d["ev"]
+        if e[0] == "Scen" and e[5][0] in ("Bg", "Step") and e[5][2] == "Skipped":
+            if chosen.setdefault(e[3], rng.random() < p):
+                e = e[:5] + [[e[5][0], e[5][1], ["Failed", "NotFound"]]]
+        out.append(dict(meta=d["meta"], ev=e))
+    return out
+
+
 def arbitrary_stream(rng, feats, n=None):
     """Any event list (not contract-abiding): used for combinators, which must be transparent on anything."""
     pool = []
